@@ -179,10 +179,19 @@ func c20Exec(op string) (string, *Violation) {
 			kv := strings.SplitN(o, ":", 2)
 			switch kv[0] {
 			case "at":
+				// at:<hex of the UTC text>[@<zone offset seconds>] — the same instant handed over in another location
+				zone := 0
+				if i := strings.Index(kv[1], "@"); i >= 0 {
+					zone, _ = strconv.Atoi(kv[1][i+1:])
+					kv[1] = kv[1][:i]
+				}
 				ts, _ := unhx(kv[1])
 				t, err := time.Parse("2006-01-02T15:04:05Z", ts)
 				if err != nil {
 					return "bad-op", nil
+				}
+				if zone != 0 {
+					t = t.In(time.FixedZone("zone", zone))
 				}
 				fopts = append(fopts, osmapi.At(t))
 				wantParams = append(wantParams, "at="+ts)
@@ -574,7 +583,11 @@ func c20Gen(r *Rng, tier string, emit func(string)) {
 		switch doc.opt {
 		case "feature":
 			if r.Chance(45) {
-				os = append(os, "at:"+hx(times[r.Intn(len(times))]))
+				o := "at:" + hx(times[r.Intn(len(times))])
+				if r.Chance(50) {
+					o += "@" + strconv.Itoa([]int{3600, -18000, 19800, 7200, -28800}[r.Intn(5)])
+				}
+				os = append(os, o)
 			}
 			if r.Chance(8) {
 				os = append(os, "at:"+hx(times[r.Intn(len(times))]))
